@@ -862,6 +862,16 @@ def run_tie(ctx, ok, thorough, xinfo):
                                 real += "b"
                             else:
                                 real += "?"
+                        # implementation only: the dictionary replaces exactly the clauses it names (mode update), nothing else
+                        want = "".join("o" if (cl in named and (mode or "update") == "update") else "b" for cl in CLAUSES)
+                        if real != want:
+                            wrong = [cl for cl, a, b in zip(CLAUSES, real, want) if a != b]
+                            ctx.fail("c02:fstatements-override:%s" % ",".join(wrong),
+                                     "fstatements {c: ...} of %s names %s (mode %s): the statements used for the function must take "
+                                     "exactly these clauses from the dictionary and every other clause from the looked-up entry %s; "
+                                     "differs for %s" % (fname, named, mode, parent.name, wrong),
+                                     {"yaml": spec.yaml(), "function": fname, "expected": want, "actual": real,
+                                      "values": {cl: repr(res.get(cl, None)) for cl in wrong}})
                         idx = name_idx[L].get(parent.name, "-")
                         ovr_reqs.append("ovr %s %s 1%d %s" % ("c" if lang == "c" else "x", idx, int((mode or "update") == "update"),
                                                               ",".join(str(CLAUSES.index(c)) for c in named) or "-"))
